@@ -714,8 +714,8 @@ func TestC10(t *testing.T) {
 		"CIDv0/v1/blake2b/identity), modifier splitter 4..512 and MaxLinks 2..8; offsets aimed at 0, size, size+1, current position, the pending " +
 		"write's start/end, chunk boundaries, anywhere in [0,size+64]; non-trivial = at least 5 calls with >= 2 writes and >= 1 seek/read/truncate; " +
 		"distinct by (config, ops)")
-	cs := vh.NewCases(e, "From V Require Import model.M_C10.\nOpen Scope Z_scope.", "case", "check_case", 200)
-	n := e.Pick(1200, 20000)
+	cs := vh.NewCases(e, "From V Require Import model.M_C10.\nOpen Scope Z_scope.", "case", "check_case", 125)
+	n := e.Pick(1000, 16000)
 	corp := corpus()
 	ten := b("0123456789")
 	type job struct {
@@ -731,6 +731,11 @@ func TestC10(t *testing.T) {
 		jobs = append(jobs, job{&config{InitLit: init, Layout: "trickle", InitChunk: 512, InitWidth: 4, Prefix: "v0", ModChunk: 512, ModWidth: 4, ModRaw: -1}, ops})
 		jobs = append(jobs, job{&config{InitLit: init, Layout: "trickle", InitChunk: 4, InitWidth: 2, Prefix: "v1", InitRaw: true, ModChunk: 4, ModWidth: 2, ModRaw: -1}, ops})
 	}
+	// witnesses of the two findings below the byte level (findings/C10.json C10-7, C10-8)
+	jobs = append(jobs, job{&config{InitSeed: 1, InitLen: 13, Layout: "identity", InitChunk: 7, InitWidth: 2, Prefix: "identity", InitRaw: true, ModChunk: 7, ModWidth: 2, ModRaw: 1},
+		[]op{{Kind: "write", Seed: 1000, Len: 64}, {Kind: "sync"}, {Kind: "writeat", Seed: 1001, Len: 3, Off: 65}, {Kind: "getnode"}}})
+	jobs = append(jobs, job{&config{InitSeed: 1, InitLen: 18, Layout: "balanced", InitChunk: 64, InitWidth: 4, Prefix: "v0", ModChunk: 64, ModWidth: 4, ModRaw: -1},
+		[]op{{Kind: "writeat", Seed: 1000, Len: 53, Off: 6}, {Kind: "writeat", Seed: 1001, Len: 4, Off: 23}, {Kind: "read", N: 61}, {Kind: "getnode"}}})
 	for len(jobs) < n {
 		c := genConfig(e)
 		jobs = append(jobs, job{c, genOps(e, c)})
